@@ -467,6 +467,24 @@ increment_simple_rowgroup_ctr(j_decompress_ptr cinfo, JDIMENSION rows)
     main_ptr->buffer_full = TRUE;
   }
 
+  /* The upsampler may still hold rows of the current row group that it has
+   * not delivered yet.  Those are the first rows to skip, so let it deliver
+   * them into a dummy buffer before skipping over whole row groups.
+   */
+  if (!master->using_merged_upsample) {
+    my_upsample_ptr upsample = (my_upsample_ptr)cinfo->upsample;
+
+    if (upsample->next_row_out < cinfo->max_v_samp_factor) {
+      JDIMENSION pending =
+        (JDIMENSION)(cinfo->max_v_samp_factor - upsample->next_row_out);
+
+      if (pending > rows)
+        pending = rows;
+      read_and_discard_scanlines(cinfo, pending);
+      rows -= pending;
+    }
+  }
+
   /* Increment the counter to the next row group after the skipped rows. */
   main_ptr->rowgroup_ctr += rows / cinfo->max_v_samp_factor;
 
